@@ -1,5 +1,6 @@
 """C21 Work is conserved and capacity is respected over time."""
 import math
+import os
 import shutil
 import tempfile
 
@@ -11,28 +12,33 @@ META = {
     "engine_kind": "S4U program running generated concurrent actors on a generated platform; online sampler at every time advance; python log checker",
     "level": "exploration",
     "technique": "online sampling of every live activity and every loaded resource at every Engine::on_time_advance + offline invariants over the whole log "
-                 "(monotone remaining, load <= capacity, integral of rate over time == requested amount, zero exactly at completion, k-equal-execs closed form)",
+                 "(monotone remaining, per-step and total integral of rate over time == work consumed, load <= current capacity, zero exactly at completion, "
+                 "k-equal-execs closed form)",
     "level_text": "Generated workloads (3-8 actors running blocking and grouped asynchronous execs with bounds / priorities / several threads, direct comms "
-                  "sharing links of generated routes, disk reads and writes sharing disks; amounts sized so that activities overlap, plus 1-unit amounts and "
-                  "ties) run under 4 model configurations (Lazy and Full update, LV08 / CM02 / raw). At every time advance the harness logs the remaining "
-                  "work (Activity::get_remaining) and the consumption rate of every live activity, and the load and capacity of every loaded host, link and "
-                  "disk (Host::get_load, Link::get_load, the three disk constraints). The checker demands, at every sample: remaining >= 0 and never "
-                  "above the previous sample (+ precision/work-amount), load <= capacity (relative precision 1e-5), the sum of the rates of the activities "
-                  "placed on a host / disk / link (from the script and the route table, not from SimGrid's own load) <= capacity; and for every completed "
-                  "activity: sum(rate*dt) == requested amount (precision/work-amount + precision/timing*rate), remaining > 0 at every sample before the "
-                  "finish date and == 0 at the finish date. Directed family: k equal single-core execs started together on a dedicated n-core host must "
-                  "each run at S*min(1,n/k) in every sample and finish at W/(S*min(1,n/k)) while other actors generate events elsewhere.",
+                  "sharing links of generated routes, disk reads and writes sharing disks; activities suspended and resumed while they run; pstate changes "
+                  "of loaded hosts; amounts sized so that activities overlap, plus 1-unit amounts and ties) run under 4 model configurations (Lazy and Full "
+                  "update, LV08 / CM02 / raw). At every time advance the harness logs the remaining work (Activity::get_remaining) and the consumption "
+                  "rate of every live activity, and the load and capacity of every loaded host, link and disk (Host::get_load, Link::get_load, the three "
+                  "disk constraints). The checker demands, at every sample: remaining >= 0 and never above the previous sample, remaining decreased by "
+                  "rate*dt (SimGrid's documented precisions), load <= capacity, the sum of the rates of the activities placed on a host / disk / link "
+                  "(from the script and the route table, not from SimGrid's own load) <= its current capacity, an exec never above its bound nor above "
+                  "threads * current speed; and for every completed activity: sum(rate*dt) == requested amount, remaining > 0 at every sample before the "
+                  "finish date, == 0 at the finish date (which must be a sampled event date) and no progress afterwards. Directed family: k equal "
+                  "single-core execs started together on a dedicated n-core host must each run at S*min(1,n/k) in every sample and finish at "
+                  "W/(S*min(1,n/k)) while other actors generate events elsewhere (boundaries k=n, k=n+1, n=1 always present).",
     "level_note": "Reads the kernel action of an activity (-fno-access-control) to get its rate, and its stored remaining work once the action is finished but "
-                  "not yet reported (the public getter aborts in that window, see the report). Suspend/resume, pstate changes, profiles, failures and "
-                  "ptask_L07 are not part of these workloads. SMPI factors are not used (constant bandwidth factor needed to recover link usage from rates).",
+                  "not yet reported (the public getter xbt_asserts in that window under the Lazy update). Speed / bandwidth profiles, failures, "
+                  "ptask_L07 and SMPI factors are not part of these workloads (constant bandwidth factor needed to recover link usage from rates). "
+                  "Latency of suspended comms is not judged (the statement is about work).",
     "rule": "case = one workload under one configuration; non-trivial = distinct (workload, configuration) whose log has >= 1 sample with two or more "
             "activities sharing one resource, fully checked",
-    "assumptions": ["a multi-threaded exec of c threads requests c*flops (as in examples/cpp/exec-threads)"],
-    "ready": False,
+    "assumptions": ["a multi-threaded exec of c threads requests c*flops (HostCLM03Model::execute_thread, examples/cpp/exec-threads)"],
+    "ready": True,
 }
 
-PREC_TIMING = 1e-9
-PREC_WORK = 1e-5
+PREC_TIMING = 1e-9          # precision/timing
+PREC_WORK = 1e-5            # precision/work-amount
+KEY_RINT = "C21:integral:I:per-step-integer-rounding"
 
 CONFIGS = [
     ("LV08:lazy", [], 0.97),
@@ -84,11 +90,10 @@ def act_text(a):
     return "I %d %s %s %d" % (a["id"], a["disk"], a["rw"], a["size"])
 
 
-def gen_workload(rng):
+def gen_workload(rng, extras=True):
     p = iso.platform(rng, small_lat=rng.random() < 0.5)
-    # fewer resources than iso's default: more sharing
     rt = iso.route_tables(p)
-    acts = {}
+    multi = [h for h in p["hosts"] if len(h["speeds"]) > 1]
     actors = []
     nid = 0
     for ai in range(rng.randint(3, 8)):
@@ -97,10 +102,12 @@ def gen_workload(rng):
             r = rng.random()
             if r < 0.12:
                 script.append(("S", float("%.4g" % iso.logu(rng, 1e-4, 1.0))))
+            elif r < 0.2 and extras and multi:
+                h = rng.choice(multi)
+                script.append(("P", h["name"], rng.randrange(len(h["speeds"]))))
             elif r < 0.55:
                 a = gen_activity(rng, p, rt, nid)
                 nid += 1
-                acts[a["id"]] = a
                 script.append(("one", a))
             else:
                 grp = []
@@ -109,56 +116,65 @@ def gen_workload(rng):
                 for _ in range(rng.randint(2, 4)):
                     a = dict(base, id=nid) if tie else gen_activity(rng, p, rt, nid)
                     nid += 1
-                    acts[a["id"]] = a
                     grp.append(a)
-                script.append(("grp", grp))
+                zs = []
+                if extras and rng.random() < 0.4:
+                    for _ in range(rng.randint(1, 2)):
+                        a = rng.choice(grp)
+                        zs.append((a["id"], float("%.4g" % iso.logu(rng, 1e-4, 1.0)), float("%.4g" % iso.logu(rng, 1e-4, 1.0))))
+                script.append(("grp", grp, zs))
         actors.append({"name": "a%d" % ai, "host": rng.choice(p["hosts"])["name"], "script": script})
     return {"platform": p, "actors": actors, "keq": None}
 
 
-def gen_keq(rng):
-    """k equal single-core execs started together on a dedicated n-core host; other actors make events elsewhere."""
-    w = gen_workload(rng)
-    p = w["platform"]
-    n = rng.choice([1, 2, 3, 4, 16])
-    k = rng.randint(1, 2 * n + 3) if n < 16 else rng.choice([1, 5, 16, 17, 24, 40])
-    sp = iso.nice(rng, 1e3, 1e12)
-    p["hosts"].append({"name": "hk", "cores": n, "speeds": [sp]})
-    dur = iso.logu(rng, 1e-2, 5.0)
+def add_keq(w, n, k, sp, dur):
+    """k equal single-core execs started together on a dedicated n-core host; the other actors make events elsewhere."""
+    w["platform"]["hosts"].append({"name": "hk", "cores": n, "speeds": [sp]})
     fl = float("%.6g" % (dur * sp))
-    nid = 1000
     ids = []
     for i in range(k):
-        a = {"k": "E", "id": nid + i, "host": "hk", "flops": fl, "bound": -1.0, "prio": 1.0, "threads": 1}
+        a = {"k": "E", "id": 1000 + i, "host": "hk", "flops": fl, "bound": -1.0, "prio": 1.0, "threads": 1}
         w["actors"].append({"name": "k%d" % i, "host": "hk", "script": [("one", a)]})
-        ids.append(nid + i)
+        ids.append(1000 + i)
     w["keq"] = {"n": n, "k": k, "speed": sp, "flops": fl, "ids": ids}
     return w
+
+
+def gen_keq(rng):
+    w = gen_workload(rng)
+    n = rng.choice([1, 2, 3, 4, 16])
+    k = rng.randint(1, 2 * n + 3) if n < 16 else rng.choice([1, 5, 16, 17, 24, 40])
+    return add_keq(w, n, k, iso.nice(rng, 1e3, 1e12), iso.logu(rng, 1e-2, 5.0))
 
 
 def workload_text(w):
     out = iso.platform_text(w["platform"])
     for a in w["actors"]:
         out.append("A %s %s" % (a["name"], a["host"]))
-        for kind, x in a["script"]:
+        for item in a["script"]:
+            kind = item[0]
             if kind == "S":
-                out.append("S %r" % x)
+                out.append("S %r" % item[1])
+            elif kind == "P":
+                out.append("P %s %d" % (item[1], item[2]))
             elif kind == "one":
-                out.append(act_text(x))
+                out.append(act_text(item[1]))
             else:
-                out.append("G %d" % len(x))
-                out.extend(act_text(y) for y in x)
+                zs = item[2] if len(item) > 2 else []
+                out.append("G %d %d" % (len(item[1]), len(zs)))
+                out.extend(act_text(y) for y in item[1])
+                out.extend("Z %d %r %r" % tuple(z) for z in zs)
     return "\n".join(out) + "\n"
 
 
 def all_acts(w):
     acts = {}
     for a in w["actors"]:
-        for kind, x in a["script"]:
-            if kind == "one":
-                acts[x["id"]] = x
-            elif kind == "grp":
-                for y in x:
+        for item in a["script"]:
+            if item[0] == "one":
+                acts[item[1]["id"]] = item[1]
+            elif item[0] == "grp":
+                for y in item[1]:
                     acts[y["id"]] = y
     return acts
 
@@ -171,12 +187,13 @@ def amount(a):
 
 # ------------------------------------------------------------------------------------------------- checker
 def check(ctx, w, cfgname, bf, out, witness, corrupt=None):
-    """Offline checker over the log of one run. Returns (fully checked, saw sharing)."""
+    """Offline checker over the log of one run. Returns (fully checked, saw sharing, samples)."""
     p = w["platform"]
     acts = all_acts(w)
     hosts = {h["name"]: h for h in p["hosts"]}
     links = {l["name"]: l for l in p["links"]}
     disks = {d["name"]: d for d in p["disks"]}
+    speed = {h["name"]: h["speeds"][0] for h in p["hosts"]}      # current speed of one core (pstate 0 at start)
     rt = iso.route_tables(p)
     st = {}          # id -> state
     ok = True
@@ -217,7 +234,7 @@ def check(ctx, w, cfgname, bf, out, witness, corrupt=None):
             if len(rates) > 1:
                 sharing = True
             if kind == "H":
-                cap = hosts[name]["speeds"][0] * hosts[name]["cores"]
+                cap = speed[name] * hosts[name]["cores"]
                 tot = sum(rates)
             elif kind == "L":
                 l = links[name.split(":")[0]]
@@ -236,25 +253,53 @@ def check(ctx, w, cfgname, bf, out, witness, corrupt=None):
         f = ln.split()
         if not f:
             continue
-        if f[0] == "T":
+        if f[0] not in ("A", "U") and sample:
             close_sample()
             sample = []
+        if f[0] == "T":
             now, delta = float(f[1]), float(f[2])
             samples += 1
             ctx.count("samples.time_advance")
             ctx.count("samples.lmm_solves", int(f[3]))
+            if delta < 0:
+                bad("C21:negative-time-step", "time advanced by %r at t=%r" % (delta, now))
         elif f[0] == "A":
             aid, rem, rate = int(f[1]), float(f[2]), float(f[3])
             s = st[aid]
             a = acts[aid]
+            amt = amount(a)
             sample.append((aid, rem, rate))
             ctx.count("samples.activity")
+            if s["susp"]:
+                ctx.count("samples.activity_while_suspended")
             if rem < 0 or math.isnan(rem):
                 bad("C21:remaining-negative:%s" % a["k"], "activity %r has remaining %r at t=%r" % (a, rem, now))
             if rem > s["prev"] + PREC_WORK:
                 bad("C21:remaining-increased:%s" % a["k"], "activity %r: remaining went %r -> %r at t=%r" % (a, s["prev"], rem, now))
-            if rate < 0:
+            if rate < 0 or math.isnan(rate):
                 bad("C21:rate-negative:%s" % a["k"], "activity %r consumes at rate %r at t=%r" % (a, rate, now))
+            # work consumed during this step == rate * dt
+            step = s["prev"] - rem
+            steptol = PREC_WORK + 2 * PREC_TIMING * rate + 4 * math.ulp(amt) + 4 * math.ulp(now) * rate
+            ctx.count("checks.step_conservation")
+            if abs(step - rate * delta) > steptol:
+                if a["k"] == "I" and abs(step - rate * delta) <= 0.5 + steptol and step == math.floor(step):
+                    ctx.count("checks.io_steps_rounded_to_integer")
+                    if not s["rint"]:
+                        s["rint"] = True
+                        bad(KEY_RINT, "I/O %r progressed by %r bytes during a step of %r s at %r B/s (= %r bytes) ending at t=%r: the disk model rounds "
+                            "the progress of every time step to an integer number of bytes" % (a, step, delta, rate, rate * delta, now))
+                else:
+                    bad("C21:step:%s" % a["k"], "activity %r: remaining went %r -> %r (%r) during the step of %r s ending at t=%r while it was served "
+                        "at rate %r (= %r)" % (a, s["prev"], rem, step, delta, now, rate, rate * delta))
+            if a["k"] == "E" and rate > 0:
+                lim = a["threads"] * speed[a["host"]]
+                if a["bound"] > 0:
+                    lim = min(lim, a["bound"])
+                ctx.count("checks.exec_rate_bound")
+                if rate > lim * (1 + PREC_WORK) + PREC_WORK:
+                    bad("C21:exec-rate-over-bound:%s" % ("user-bound" if a["bound"] > 0 and a["bound"] < a["threads"] * speed[a["host"]] else "cores"),
+                        "exec %r progresses at %r at t=%r, above min(bound, threads * speed %r) = %r" % (a, rate, now, speed[a["host"]], lim))
             s["prev"] = rem
             s["integral"] += rate * delta
             s["maxrate"] = max(s["maxrate"], rate)
@@ -267,7 +312,16 @@ def check(ctx, w, cfgname, bf, out, witness, corrupt=None):
                 bad("C21:load-over-capacity:%s" % kind, "at t=%r %s %s reports a load of %r, its capacity is %r" % (now, kind, name, load, cap))
         elif f[0] == "B":
             aid = int(f[1])
-            st[aid] = {"start": float(f[2]), "prev": amount(acts[aid]), "integral": 0.0, "maxrate": 0.0, "trace": [], "steps": 0}
+            st[aid] = {"start": float(f[2]), "prev": amount(acts[aid]), "integral": 0.0, "maxrate": 0.0, "trace": [], "steps": 0, "susp": False,
+                       "rint": False}
+        elif f[0] == "Z":
+            st[int(f[1])]["susp"] = True
+            ctx.count("events.suspend")
+        elif f[0] == "R":
+            st[int(f[1])]["susp"] = False
+        elif f[0] == "P":
+            speed[f[1]] = hosts[f[1]]["speeds"][int(f[2])]
+            ctx.count("events.pstate_change")
         elif f[0] == "F":
             aid, clock, stt, ft = int(f[1]), float(f[2]), float(f[3]), float(f[4])
             s = st[aid]
@@ -276,29 +330,35 @@ def check(ctx, w, cfgname, bf, out, witness, corrupt=None):
             s["done"] = True
             s["ft"] = ft
             ctx.count("activities.completed." + a["k"])
-            tol = PREC_WORK + 2 * PREC_TIMING * s["maxrate"] + 1e-12 * amt
+            tol = PREC_WORK + 2 * PREC_TIMING * s["maxrate"] + 1e-12 * amt + 4 * math.ulp(ft) * s["maxrate"] * max(1, len(s["trace"]))
             err = s["integral"] - amt
             ctx.maximum("worst_integral_error_over_tolerance." + a["k"], abs(err) / tol)
             if abs(err) > tol:
                 if a["k"] == "I" and abs(err) <= 0.5 * s["steps"] + tol:
-                    bad("C21:integral:I:within-rint-rounding", "I/O %r received sum(rate*dt) = %r bytes for %r requested (error %r, %d samples while running): "
-                        "the disk model rounds the progress of every step to an integer number of bytes" % (a, s["integral"], amt, err, s["steps"]))
+                    if not s["rint"]:
+                        bad(KEY_RINT, "I/O %r received sum(rate*dt) = %r bytes for %r requested (error %r, %d samples while running): "
+                            "the disk model rounds the progress of every step to an integer number of bytes" % (a, s["integral"], amt, err, s["steps"]))
                 else:
                     bad("C21:integral:%s" % a["k"], "activity %r completed at %r having received sum(rate*dt) = %r for %r requested (error %r, tolerance %r); "
                         "samples (t, remaining, rate): %r" % (a, ft, s["integral"], amt, err, tol, s["trace"][-6:]))
-            # zero exactly at completion
+            # zero exactly at completion: > 0 before the finish date, 0 in the last sample of the finish date, nothing afterwards
+            at_ft = [x for x in s["trace"] if x[0] == ft]
             for (t, rem, rate) in s["trace"]:
                 if t < ft - PREC_TIMING and rem <= 0 and amt > 0:
                     bad("C21:zero-before-completion:%s" % a["k"], "activity %r shows remaining %r at t=%r, it completes at %r" % (a, rem, t, ft))
                     break
-                if abs(t - ft) <= 0 and rem > PREC_WORK:
-                    bad("C21:nonzero-at-completion:%s" % a["k"], "activity %r completes at %r with remaining %r" % (a, ft, rem))
+                if t > ft and (rem > 0 or rate > 0):
+                    bad("C21:work-after-completion:%s" % a["k"], "activity %r completed at %r but shows remaining %r and rate %r at t=%r" % (a, ft, rem, rate, t))
                     break
-            if ft < s["start"] or clock < ft:
-                bad("C21:finish-date-order", "activity %r: started %r, finish time %r, seen by its actor at %r" % (a, s["start"], ft, clock))
+            if not at_ft:
+                bad("C21:finish-date-not-sampled:%s" % a["k"], "activity %r reports finish time %r, which is no date of a time advance where it was live "
+                    "(samples: %r)" % (a, ft, s["trace"][-4:]))
+            elif at_ft[-1][1] > 0:
+                bad("C21:nonzero-at-completion:%s" % a["k"], "activity %r completes at %r with remaining %r" % (a, ft, at_ft[-1][1]))
+            if ft < s["start"] or clock < ft or stt != s["start"]:
+                bad("C21:finish-date-order", "activity %r: started %r (reports %r), finish time %r, seen by its actor at %r" % (a, s["start"], stt, ft, clock))
         elif f[0] == "END":
-            close_sample()
-            sample = []
+            pass
     missing = [i for i in acts if i not in st or not st[i].get("done")]
     if missing or not any(l.startswith("END") for l in lines):
         ok = False
@@ -319,62 +379,151 @@ def check(ctx, w, cfgname, bf, out, witness, corrupt=None):
                     bad("C21:k-equal-execs:rate:%s" % ("k<=n" if k <= n else "k>n"), "%d equal execs on a %d-core host of speed %r: exec %d progresses at %r "
                         "at t=%r, expected S*min(1,n/k) = %r" % (k, n, sp, i, rate, t, share))
                     break
-    return ok and viol[0] == 0, sharing or bool(kq and kq["k"] > 1), samples
+    return ok, sharing or bool(kq and kq["k"] > 1), samples
 
 
-def run_one(flavour, flags, w, timeout=300):
-    exe = build.harness("conserve.cpp", flavour, internal=True, deps=["plat.hpp"])
-    return proc.run([exe, "--log=root.thres:critical"] + flags, stdin=workload_text(w), timeout=timeout)
+# ------------------------------------------------------------------------------------------------- running
+def exe_of(flavour):
+    return build.harness("conserve.cpp", flavour, internal=True, deps=["plat.hpp"])
 
 
-def evaluate(ctx, w, cfg, flavour, corrupt=None):
-    name, flags, bf = cfg
-    res = run_one(flavour, flags, w)
-    ctx.evaluation()
+def run_batch(ctx, batch, flavour, corrupt=None):
+    """batch = list of (workload, cfg): one harness process, one forked child per case."""
+    text = []
+    for i, (w, cfg) in enumerate(batch):
+        text.append("CASE %d %s" % (i, " ".join(cfg[1])))
+        text.append(workload_text(w).rstrip("\n"))
+        text.append("ENDCASE")
+    res = proc.run([exe_of(flavour), "--log=root.thres:critical"], stdin="\n".join(text) + "\n", timeout=120 + 60 * len(batch),
+                   env={"C21_CASE_BUDGET": "120"})
     ctx.count("processes." + flavour)
-    wit = {"workload": w, "cfg": list(cfg), "flavour": flavour}
-    if res.timed_out:
-        ctx.inconclusive("conserve harness watchdog")
-        return
-    if res.rc != 0 or "END" not in res.out:
-        san = proc.sanitizer_reports(res.err)
-        ctx.violation("C21:crash:%s" % name.split(":")[1], "conserve harness died rc=%s under %s: %s" % (res.rc, name, san[:1] or res.err[-500:]), wit)
-        return
-    full, sharing, samples = check(ctx, w, name, bf, res.out, wit, corrupt)
-    if full and sharing and samples >= 3:
-        ctx.nontrivial([workload_text(w), name])
+    if os.environ.get("C21_DEBUG"):
+        print("[C21 debug] %s batch of %d: %.1fs" % (flavour, len(batch), res.wall), flush=True)
+    logs = {}
+    cur = None
+    for ln in res.out.splitlines():
+        if ln.startswith("CASE "):
+            cur = int(ln.split()[1])
+            logs[cur] = {"lines": [], "done": None}
+        elif ln.startswith("DONE "):
+            f = ln.split()
+            logs[int(f[1])]["done"] = (int(f[2]), int(f[3]))
+            cur = None
+        elif cur is not None:
+            logs[cur]["lines"].append(ln)
+    for i, (w, cfg) in enumerate(batch):
+        name, flags, bf = cfg
+        ctx.evaluation()
+        ctx.count("cases." + flavour)
+        wit = {"workload": w, "cfg": list(cfg), "flavour": flavour}
+        lg = logs.get(i)
+        if lg is None or lg["done"] is None:
+            if res.timed_out:
+                ctx.inconclusive("conserve harness watchdog (batch)")
+            else:
+                ctx.violation("C21:crash:batch", "conserve harness died rc=%s before/while running a case under %s: %s"
+                              % (res.rc, name, res.err[-500:]), wit)
+            continue
+        code, sig = lg["done"]
+        if sig == 14:
+            ctx.inconclusive("conserve harness watchdog (case)")
+            continue
+        out = "\n".join(lg["lines"])
+        if code != 0 or sig != 0 or not any(l.startswith("END") for l in lg["lines"]):
+            san = proc.sanitizer_reports(res.err)
+            ctx.violation("C21:crash:%s" % name.split(":")[1], "conserve harness died (exit %s, signal %s) under %s: %s"
+                          % (code, sig, name, san[:1] or res.err[-500:]), wit)
+            continue
+        full, sharing, samples = check(ctx, w, name, bf, out, wit, corrupt)
+        if full and sharing and samples >= 3:
+            ctx.nontrivial([workload_text(w), name])
 
 
 # directed witnesses -----------------------------------------------------------------------------------------
-def directed_rint():
-    """One 2e8-byte read at 1e8 B/s next to an exec ending at t=1.4727742268: the read finishes 3.2 ns early."""
-    p = {"hosts": [{"name": "h0", "cores": 4, "speeds": [1e9]}], "links": [{"name": "l0", "bw": 1e6, "lat": 0.01, "pol": "S"}], "routes": [],
+def directed_rint(tick, n):
+    """One 1000-byte read on a 1000 B/s disk (1 s alone) while an unrelated actor sleeps n times for `tick` seconds:
+    tick=0.0004 -> 0.4 byte per step is rounded to 0, the read is starved while the other actor sleeps;
+    tick=0.0006 -> 0.6 byte per step is rounded to 1: the disk delivers 1667 B/s, above its bandwidth."""
+    p = {"hosts": [{"name": "h0", "cores": 1, "speeds": [1e9]}, {"name": "h1", "cores": 1, "speeds": [1e9]}],
+         "links": [{"name": "l0", "bw": 1e6, "lat": 0.0, "pol": "S"}], "routes": [{"src": "h0", "dst": "h1", "sym": 1, "links": [("l0", "N")]}],
+         "disks": [{"host": "h0", "name": "d0", "rbw": 1000.0, "wbw": 1000.0}]}
+    a0 = {"k": "I", "id": 0, "disk": "d0", "rw": "R", "size": 1000}
+    return {"platform": p, "keq": None, "actors": [{"name": "reader", "host": "h0", "script": [("one", a0)]},
+                                                    {"name": "ticker", "host": "h1", "script": [("S", tick)] * n}]}
+
+
+def directed_basic():
+    """Deterministic small workload: sharing, a suspension, a pstate change, a bound, threads."""
+    p = {"hosts": [{"name": "h0", "cores": 2, "speeds": [1e9, 5e8]}, {"name": "h1", "cores": 1, "speeds": [1e9]}],
+         "links": [{"name": "l0", "bw": 1e6, "lat": 1e-3, "pol": "S"}, {"name": "l1", "bw": 2e6, "lat": 0.0, "pol": "F"},
+                   {"name": "l2", "bw": 1e6, "lat": 1e-4, "pol": "D"}],
+         "routes": [{"src": "h0", "dst": "h1", "sym": 1, "links": [("l0", "N"), ("l1", "N"), ("l2", "U")]}],
          "disks": [{"host": "h0", "name": "d0", "rbw": 1e8, "wbw": 5e7}]}
-    a0 = {"k": "I", "id": 0, "disk": "d0", "rw": "R", "size": 200000000}
-    a1 = {"k": "E", "id": 1, "host": "h0", "flops": 1472774226.8, "bound": -1.0, "prio": 1.0, "threads": 1}
-    return {"platform": p, "keq": None, "actors": [{"name": "a0", "host": "h0", "script": [("one", a0)]}, {"name": "a1", "host": "h0", "script": [("one", a1)]}]}
+
+    def ex(i, fl, bound=-1.0, prio=1.0, th=1, host="h0"):
+        return {"k": "E", "id": i, "host": host, "flops": fl, "bound": bound, "prio": prio, "threads": th}
+    g1 = [ex(0, 1e9), ex(1, 1e9), ex(2, 5e8, bound=2.5e8), ex(3, 1e9, th=3)]
+    g2 = [{"k": "C", "id": 4, "src": "h0", "dst": "h1", "size": 1e6}, {"k": "C", "id": 5, "src": "h1", "dst": "h0", "size": 5e5},
+          {"k": "C", "id": 6, "src": "h0", "dst": "h1", "size": 1.0}]
+    g3 = [{"k": "I", "id": 7, "disk": "d0", "rw": "R", "size": 100000000}, {"k": "I", "id": 8, "disk": "d0", "rw": "W", "size": 50000000},
+          {"k": "I", "id": 9, "disk": "d0", "rw": "R", "size": 1}]
+    return {"platform": p, "keq": None, "actors": [
+        {"name": "a0", "host": "h0", "script": [("grp", g1, [(0, 0.3, 0.5), (3, 0.1, 0.25)]), ("one", ex(10, 1.0))]},
+        {"name": "a1", "host": "h1", "script": [("S", 0.45), ("P", "h0", 1), ("S", 1.0), ("P", "h0", 0), ("one", ex(11, 2e9, prio=2.0))]},
+        {"name": "a2", "host": "h1", "script": [("grp", g2, [(4, 0.2, 0.4)]), ("one", ex(12, 1e9, host="h1"))]},
+        {"name": "a3", "host": "h0", "script": [("grp", g3, [(7, 0.5, 0.5)])]}]}
+
+
+def directed_keq():
+    out = []
+    for (n, k, sp, dur) in [(1, 1, 1e9, 1.0), (1, 2, 1e9, 1.0), (2, 2, 2.5e8, 0.5), (2, 3, 1e9, 1.0), (4, 4, 1e6, 2.0), (4, 5, 1e9, 1.0), (16, 17, 1e12, 0.1),
+                            (3, 7, 3e9, 0.7)]:
+        p = {"hosts": [{"name": "h0", "cores": 1, "speeds": [1e9]}, {"name": "h1", "cores": 1, "speeds": [1e9]}],
+             "links": [{"name": "l0", "bw": 1e6, "lat": 0.0, "pol": "S"}], "routes": [{"src": "h0", "dst": "h1", "sym": 1, "links": [("l0", "N")]}], "disks": []}
+        w = {"platform": p, "keq": None, "actors": [{"name": "ticker", "host": "h0", "script": [("S", 0.013)] * 20}]}
+        out.append(add_keq(w, n, k, sp, dur))
+    return out
+
+
+def plan(ctx):
+    """(hooks cases, asan cases): lists of (workload, cfg)."""
+    n = ctx.size(26, 700)
+    nk = ctx.size(14, 300)
+    hooks = [(directed_rint(0.0004, 500), CONFIGS[0]), (directed_rint(0.0006, 1000), CONFIGS[1])]
+    asan = []
+    for cfg in CONFIGS:
+        hooks.append((directed_basic(), cfg))
+    asan.append((directed_basic(), CONFIGS[0]))
+    for i, w in enumerate(directed_keq()):
+        hooks.append((w, CONFIGS[i % 2]))
+    for i in range(n):
+        w = gen_workload(ctx.sub_rng("w", i), extras=i % 4 != 3)       # one workload in four without suspensions / pstate changes
+        for cfg in CONFIGS:
+            hooks.append((w, cfg))
+        if i % 8 == 0:
+            asan.append((w, CONFIGS[i // 8 % len(CONFIGS)]))
+    for i in range(nk):
+        w = gen_keq(ctx.sub_rng("k", i))
+        hooks.append((w, CONFIGS[i % 2]))      # the CPU model is the same under the network variants: Lazy and Full
+    return hooks, asan
+
+
+def chunks(cases, flavour, size):
+    return [(cases[i:i + size], flavour) for i in range(0, len(cases), size)]
 
 
 def run(ctx):
-    n = ctx.size(26, 700)
-    nk = ctx.size(14, 300)
     tmp = tempfile.mkdtemp(prefix="verif-C21-")
     try:
         for fl in ("hooks", "asan"):
-            build.harness("conserve.cpp", fl, internal=True, deps=["plat.hpp"])
-        jobs = [(directed_rint(), CONFIGS[0], "hooks")]
-        for i in range(n):
-            w = gen_workload(ctx.sub_rng("w", i))
-            for cfg in CONFIGS:
-                jobs.append((w, cfg, "hooks"))
-            if i % 10 == 0:
-                jobs.append((w, CONFIGS[i // 10 % len(CONFIGS)], "asan"))
-        for i in range(nk):
-            w = gen_keq(ctx.sub_rng("k", i))
-            jobs.append((w, CONFIGS[i % 2], "hooks"))      # the CPU model is the same under the network variants: Lazy and Full
-        ctx.sample({"workload": workload_text(jobs[1][0]).splitlines(), "cfg": jobs[1][1][0]})
-        ctx.sample({"k_equal": jobs[-1][0]["keq"], "cfg": jobs[-1][1][0]})
-        ctx.pmap(lambda j: evaluate(ctx, j[0], j[1], j[2]), jobs)
+            exe_of(fl)
+        hooks, asan = plan(ctx)
+        ctx.sample({"workload": workload_text(hooks[-1][0]).splitlines(), "k_equal": hooks[-1][0]["keq"], "cfg": hooks[-1][1][0]})
+        ctx.sample({"workload": workload_text(directed_basic()).splitlines(), "cfg": "all four"})
+        jobs = int(os.environ.get("VERIF_JOBS", "16"))
+        per = max(2, min(12, -(-len(hooks) // (3 * jobs))))
+        batches = chunks(asan, "asan", 3 if ctx.tier == "quick" else 6) + chunks(hooks, "hooks", per)
+        ctx.pmap(lambda b: run_batch(ctx, b[0], b[1]), batches)
     finally:
         shutil.rmtree(tmp, ignore_errors=True)
 
@@ -383,9 +532,15 @@ def _untuple(w):
     for r in w["platform"]["routes"]:
         r["links"] = [tuple(x) for x in r["links"]]
     for a in w["actors"]:
-        a["script"] = [tuple(x) for x in a["script"]]
+        sc = []
+        for x in a["script"]:
+            x = list(x)
+            if x[0] == "grp" and len(x) > 2:
+                x[2] = [tuple(z) for z in x[2]]
+            sc.append(tuple(x))
+        a["script"] = sc
     return w
 
 
 def replay(ctx, wit):
-    evaluate(ctx, _untuple(wit["workload"]), tuple(wit["cfg"]), wit["flavour"])
+    run_batch(ctx, [(_untuple(wit["workload"]), tuple(wit["cfg"]))], wit["flavour"])
